@@ -1,9 +1,19 @@
 package quic
 
-// [UQUIC] SetConnectionIDLimit was previously used to set a custom active connection ID
-// limit on the connIDManager. In quic-go v0.59.1, the connIDManager no longer stores
-// this limit — it is enforced via protocol.MaxActiveConnectionIDs and the peer's
-// transport parameters. This function is kept as a no-op for API compatibility;
-// the ActiveConnectionIDLimit value in the transport parameters already controls
-// how many connection IDs the server will send us.
-func (h *connIDManager) SetConnectionIDLimit(_ uint64) {}
+import "github.com/refraction-networking/uquic/internal/protocol"
+
+// [UQUIC] SetConnectionIDLimit tells the connIDManager which active_connection_id_limit was
+// advertised to the peer. A spec-driven client puts the limit from its QUICSpec on the wire
+// (e.g. 8 for the Firefox parrots) instead of protocol.MaxActiveConnectionIDs, and the peer
+// is entitled to issue connection IDs up to that limit, so that is the limit that has to be
+// enforced for NEW_CONNECTION_ID frames. Values below protocol.MaxActiveConnectionIDs
+// (including 0, parameter absent) keep the default.
+func (h *connIDManager) SetConnectionIDLimit(limit uint64) {
+	h.connIDLimit = limit
+}
+
+// connectionIDLimit is the number of connection IDs (including the active one) the peer may
+// have issued and not yet seen retired.
+func (h *connIDManager) connectionIDLimit() uint64 {
+	return max(h.connIDLimit, protocol.MaxActiveConnectionIDs)
+}
